@@ -31,10 +31,16 @@ def operand(g, kinds=("imm", "reg", "mem", "target")):
     return o
 
 
+def hexbytes(g, nb):
+    """raw-byte column; other disassemblers' and hand-edited listings write the digits in upper case (the line regexes accept both)"""
+    fmt = "%02X" if g.chance(0.15) else "%02x"
+    return "".join(fmt % g.pick([g.int(0, 255), g.int(0xa0, 0xff), 0xff, 0x0f]) for _ in range(nb))
+
+
 def inst_line(g, addr, mnems=MNEMS):
     m = g.pick(mnems)
     nb = g.int(1, 7) if g.chance(0.9) else g.int(8, 15)      # `--insn-width` listings carry more than 7 bytes per line
-    byts = "".join("%02x" % g.int(0, 255) for _ in range(nb))
+    byts = hexbytes(g, nb)
     line = {"k": "inst", "indent": g.pick([2, 2, 2, 0, 1, 4, 8]), "addr": "%x" % addr, "bytes": byts,
             "pad": g.pick([max(0, 21 - 3 * nb), 0, 1, 5]), "mnem": m, "gap": 1, "ops": [], "annot": None, "comment": None}
     if m in NOOP_MNEMS and g.chance(0.8):
@@ -104,7 +110,7 @@ def presentation_edit(g, lines):
             l["indent"] = g.int(0, 9)
         if g.chance(0.5):
             nb = g.int(1, 9)
-            l["bytes"] = "".join("%02x" % g.int(0, 255) for _ in range(nb))
+            l["bytes"] = hexbytes(g, nb)
         if g.chance(0.5):
             l["pad"] = g.int(0, 30)
         if g.chance(0.4) and l["ops"]:
